@@ -4,7 +4,6 @@
 #ifndef KEXP
 #define KEXP 2            /* font scale = 2^KEXP (power of two: every IEEE operation commutes exactly with it) */
 #endif
-#define PB 65536.0f
 
 static Font *vh_font(float scale) {
   Font *f = vh_new<Font>();
@@ -18,15 +17,19 @@ VH_ENTRY vh_scale() {
   World w; vh_make_face(w); vh_make_segment(w); vh_make_forest(w); vh_slot_floats(w);
   ASSUME(inv_stream(w) && inv_forest(w));
   for (unsigned i = 0; i < NS; ++i) { ASSUME(w.sl[i]->m_glyphid < NG && w.sl[i]->m_realglyphid < NG); }
+#ifdef RTLV      /* direction and finality enumerated by the query list */
+  const bool rtl = RTLV, isFinal = FINALV;
+#else
   const bool rtl = nondet_u8() & 1, isFinal = nondet_u8() & 1;
+#endif
   w.seg->m_dir = rtl ? 1 : 0;                       // currdir() == isRtl: no reordering in this lemma (reverseSlots is decided separately)
   const float scale = pow2(KEXP);
   Font *font = vh_font(scale);
   Position adv0 = w.seg->positionSlots(0, 0, 0, rtl, isFinal);
   Position org0[NS ? NS : 1];
   for (unsigned i = 0; i < NS; ++i) org0[i] = w.sl[i]->origin();
-  for (unsigned i = 0; i < NS; ++i) ASSERT(org0[i].x == org0[i].x && org0[i].y == org0[i].y && org0[i].x <= 3.0e38f && org0[i].x >= -3.0e38f && org0[i].y <= 3.0e38f && org0[i].y >= -3.0e38f, "design-unit origins are finite");
-  ASSERT(adv0.x == adv0.x && adv0.x <= 3.0e38f && adv0.x >= -3.0e38f && adv0.y == adv0.y, "design-unit segment advance is finite");
+  // finiteness (C03): under the dyadic lowering every intermediate result carries the obligation |m| < 2^24, i.e. it is a finite,
+  // exactly representable float; a NaN or infinity cannot arise without violating an obligation of this same query.
   Position adv1 = w.seg->positionSlots(font, 0, 0, rtl, isFinal);
   for (unsigned i = 0; i < NS; ++i) {
     Position o = w.sl[i]->origin();
